@@ -66,12 +66,21 @@ structure Cfg where
   /-- the `model_context` given to `add_model`, per model -/
   extra : List (Nat × List Ctx)
 
-/-- `self.machine_context` after `__init__` -/
-def Cfg.mctx (c : Cfg) : List Ctx :=
-  (if c.base.isEmpty then [Ctx.lock 0] else c.base) ++ [Ctx.ident]
+/-- `listify(machine_context) or [PicklableLock()]` -/
+def Cfg.mbase (c : Cfg) : List Ctx := if c.base.isEmpty then [Ctx.lock 0] else c.base
+
+/-- `self.machine_context` after `__init__` (`.append(self._ident)`) -/
+def Cfg.mctx (c : Cfg) : List Ctx := c.mbase ++ [Ctx.ident]
 
 /-- `self.model_context_map[id(m)]` after one `add_model` -/
 def Cfg.cmap (c : Cfg) (m : Nat) : List Ctx := c.mctx ++ alookupD m c.extra
+
+/-- the machine contexts contain the mutex `L`; the machine's own IdentManager is not among the
+user supplied contexts -/
+def WF (c : Cfg) (L : Nat) : Prop :=
+  Ctx.lock L ∈ c.mbase ∧ Ctx.ident ∉ c.base ∧ ∀ p ∈ c.extra, Ctx.ident ∉ p.2
+
+instance (c : Cfg) (L : Nat) : Decidable (WF c L) := by unfold WF; infer_instance
 
 /-- the contexts a non re-entrant call enters -/
 def ctxsFor (c : Cfg) (tgt : Nat) : List Ctx :=
